@@ -401,8 +401,8 @@ impl Check for C03 {
     }
     fn budget(&self, tier: Tier) -> Budget {
         match tier {
-            Tier::Quick => Budget { wall_secs: 25, max_cases: 150_000, checkpoint_every: 4096, workers: 16 },
-            Tier::Thorough => Budget { wall_secs: 300, max_cases: 20_000_000, checkpoint_every: 4096, workers: 16 },
+            Tier::Quick => Budget { wall_secs: 40, max_cases: 1_500_000, checkpoint_every: 4096, workers: 16 },
+            Tier::Thorough => Budget { wall_secs: 600, max_cases: 60_000_000, checkpoint_every: 4096, workers: 16 },
         }
     }
     fn generate(&self, seed: u64, idx: u64, _tier: Tier) -> Value {
